@@ -495,6 +495,21 @@ func parseStops(csv *csv.File, inheritWheelchairBoarding bool) []Stop {
 		stops[stopIdToIndex[stopId]].Parent = &stops[parentStopIndex]
 	}
 
+	// The stop hierarchy must be a forest: break every cycle of parent_station references
+	// (e.g. a stop that names itself as its parent), otherwise Stop.Root would never return.
+	for i := range stops {
+		stop := &stops[i]
+		for steps := 0; stop.Parent != nil; steps++ {
+			if steps > len(stops) {
+				// After more than len(stops) steps the walk is inside a cycle.
+				log.Printf("Removing the parent of stop %s because it is its own ancestor", stop.Id)
+				stop.Parent = nil
+				break
+			}
+			stop = stop.Parent
+		}
+	}
+
 	// Inherit wheelchair boarding from parent stops if specified.
 	if inheritWheelchairBoarding {
 		for i := range stops {
